@@ -29,7 +29,7 @@ RULE = ("codec {none, gz, bz2, lz4, zst, zstd} x container {stream, avro, jsonfi
 CODECS = {"none": "", "gz": ".gz", "bz2": ".bz2", "lz4": ".lz4", "zst": ".zst", "zstd": ".zstd"}
 MAGIC = {"gz": b"\x1f\x8b", "bz2": b"BZh", "lz4": b"\x04\x22\x4d\x18", "zst": b"\x28\xb5\x2f\xfd", "zstd": b"\x28\xb5\x2f\xfd"}
 CONTAINERS = {"stream": ("", ".records"), "avro": ("avro://", ".avro"), "jsonfile": ("jsonfile://", ".json"), "csvfile": ("csvfile://", ".csv")}
-NAMINGS = ["path", "neutral", "fileio", "buffered", "bytesio", "readonly", "stdin", "bytesio-at-offset", "fileio-at-offset", "scheme+bytesio", "scheme+fileio"]
+NAMINGS = ["path", "neutral", "fileio", "buffered", "bytesio", "readonly", "stdin", "bytesio-at-offset", "fileio-at-offset", "scheme+bytesio", "scheme+fileio", "scheme+stdin", "scheme-dash+stdin"]
 SEQS = ["empty", "one", "three", "many"]
 TIER = ["quick"]
 _n = [0]
@@ -167,6 +167,10 @@ def read_named(container, naming, path, scheme, raw):
                 return got, exc, cls
             finally:
                 os.unlink(emb)
+        elif naming in ("scheme+stdin", "scheme-dash+stdin"):
+            # the container named by the URL scheme, the bytes on standard input (stream://  /  avro://-)
+            sys.stdin = _Std(raw)
+            rd = RecordReader((scheme or "stream://") + ("-" if naming == "scheme-dash+stdin" else ""))
         elif naming == "readonly":
             rd = RecordReader(fileobj=ReadOnly(raw))
         else:
